@@ -136,6 +136,16 @@ CLAIMED = {
             "no profile data of their own (so the clauses compose over any sequence of calls on any number of "
             "objects). The 18-prompt dialogue is out of reach of path-based symbolic execution and is bounded.",
             "3 C19"),
+    "C07": ("other", "contract-based deductive verification: pointwise and frame postconditions on the real bodies of five "
+            "preprocessing steps and find_turning_point (curve = finite map of symbolic-length columns; compute_poc "
+            "and lmfit.LinearModel under contract), exit-condition lemmas of the monotone smoothing; bounded runs for "
+            "the smoothing itself and all steps on synthetic and recorded curves",
+            "For all columns of any length and every option value: tip = height + force/k; force/tip offsets are a "
+            "constant shift (baseline mean / value at the contact index, exactly 0 there); slope correction removes "
+            "m*(a - a_end) inside the selected region over the selected abscissa, is 0 at the region end and leaves "
+            "the rest untouched; a single 0->1 switch at the turning point; only owned columns are written, nothing "
+            "in place; invalid options raise before writing. Median filtering and tie-breaking are bounded.",
+            "3 C07"),
 }
 
 NOT_APPLICABLE = {
